@@ -56,7 +56,10 @@ def run(plan):
         if reply_state["mutate"] is not None:
             pkt = dev._mutate(pkt, reply_state["mutate"])
         reply_state["sent"] = pkt
-        conn.send(pkt)
+        if reply_state.get("lat"):
+            conn.send(pkt, lat=reply_state["lat"])
+        else:
+            conn.send(pkt)
     dev.raw_payload_handler = raw_handler
 
     async def proto_session(w):
@@ -113,7 +116,15 @@ def run(plan):
         if proto is None:
             return
         expect_counter = 1     # handshake request used counter 0
-        for n, m in plan["pairs"]:
+        pairs = plan["pairs"]
+        if plan.get("straddle"):
+            # the session key's 12 h lifetime ends while the response is on its way: the request was legitimately
+            # written under the key, and the device answers under it
+            await asyncio.sleep(12 * 3600 - plan["straddle"][0])
+            reply_state["lat"] = plan["straddle"][1]
+            pairs = pairs[:1]
+            w.fire("key_lifetime_ends_while_response_in_flight")
+        for n, m in pairs:
             payload = det_bytes(f"req{plan['seed']}:{n}", n)
             reply_state["payload"] = det_bytes(f"rsp{plan['seed']}:{m}", m)
             reply_state["padseed"] = n * 1000 + m
@@ -297,7 +308,7 @@ def run(plan):
         res.fail(f"liveness: {type(e).__name__}", str(e))
     res.take(w)
     res.add_fired(dev.fired)
-    res.key = (mode, plan.get("seed"), repr(plan.get("pairs", plan.get("bit"))), plan.get("m"), plan.get("count"),
+    res.key = (mode, plan.get("seed"), repr(plan.get("pairs", plan.get("bit"))), repr(plan.get("straddle")), plan.get("m"), plan.get("count"),
                repr(plan.get("burst")))
     res.nontrivial = True
     return res
@@ -319,6 +330,12 @@ def space(tier):
         return {"mode": "lengths", "config": {"version": 3, "key": rand_bytes(rng, 32).hex(),
                                               "token": rand_bytes(rng, 64).hex()}, "pairs": [[n, n]]}
     sp.add("lengths_diag", 301 * reps, lengths_same, exhaustive=True)
+
+    def lengths_straddle(j, rng):
+        p = lengths_same(j * 7, rng)
+        p["straddle"] = [rng.choice([0.01, 0.25, 0.9]), rng.choice([0.5, 1.0, 1.9])]
+        return p
+    sp.add("lengths_key_lifetime_straddle", 43 * reps, lengths_straddle)
 
     tl = TAMPER_LENS[:8] if tier == "quick" else TAMPER_LENS
     idx = []
